@@ -394,6 +394,32 @@ def check(run, prog):
            (f"peek() at the spelling {wrong_ctx[1]!r} standing right after {wrong_ctx[0]!r} returns {wrong_ctx[3]!r}, expected "
             f"{wrong_ctx[2]!r}: whether a spelling is translated depends on the characters before it") if wrong_ctx else "",
            pk.node, contexts_x_keys=n_ctx)
+    # ... and the whole tokenizer gives a punctuator the same kind in every spelling: get_next_token (with the tree's own
+    # sub-parsers and whatever selects among them) on each digraph / trigraph and on the character it stands for
+    gnt = prog.method("Lexer", "get_next_token")
+    run.require(gnt is not None, "anchor vanished: Lexer.get_next_token")
+    wrong_tok = None
+    n_tok = 0
+    try:
+        allk = dict(tables["trigraphs"])
+        allk.update(tables["digraphs"])
+        for sp, ch in sorted(allk.items()):
+            if ch == "\\":
+                continue                          # the backslash is not a token
+            res = []
+            for src in (ch, sp):
+                n_tok += 1
+                sim = LexerSim(prog, src + " x")
+                out = sim.call("get_next_token")
+                res.append((getattr(out.value, "type", None) if out.kind == "ok" else repr(out), sim.pos == len(src), sim.error_names()))
+            if res[0][0] != res[1][0] or not res[1][1] or res[1][2] != res[0][2]:
+                wrong_tok = wrong_tok or (ch, sp, res)
+    except Unsupported as e:
+        raise Undecided(f"Lexer.get_next_token is outside the evaluable subset: {e}")
+    run.ob("R-12.1", f"{gnt.key}::respelling-invariant", wrong_tok is None,
+           (f"get_next_token gives {wrong_tok[2][0][0]} for {wrong_tok[0]!r} but {wrong_tok[2][1][0]} (whole spelling consumed: "
+            f"{wrong_tok[2][1][1]}, diagnostics {wrong_tok[2][1][2]}) for its spelling {wrong_tok[1]!r}") if wrong_tok else "",
+           gnt.node, evaluations=n_tok)
     pop = prog.method("Lexer", "pop")
     run.require(pop is not None, "anchor vanished: Lexer.pop")
     _, pgood, pbad, _ = translation_chains(pop)
